@@ -25,7 +25,7 @@ list contains an empty block immediately followed by a bare zone.  (An empty blo
 preceding sibling is harmless: the fence column is smaller than that block's indentation.)  `SecOK` carries the matching
 condition on the follower token: after an EMPTY block at depth `d` a FENCE_OPEN must have `column - 1 < 2·d`.
 
-What may follow a forest (`stopsB`): as `BlockParse.stopsAt`, but a FENCE_OPEN is admitted when its `column - 1` is smaller
+What may follow a forest (`stopsB`): as `BlockParse.stopsAt`, but a FENCE_OPEN is allowed when its `column - 1` is smaller
 than the child indentation (`blockLoop` then leaves it to an enclosing block).
 
 Bare zones at TOP LEVEL (directly under the envelope) are outside the model: `docLoop` has no fence branch — `parse_section`
